@@ -618,6 +618,65 @@ fn entity_type_stability(ctx: &mut Ctx) {
     }
 }
 
+/// `hv probe c14-guards`: answers of supertypes_of / inheritance are guards into the caches. Keeping one alive while
+/// asking again for *cached* symbols must not block (readers do not exclude readers), alone or from two threads.
+pub fn probe_guards() -> i32 {
+    let ns = OwnedNs::make(real_grid());
+    let names = ["site", "equip", "ahu", "point", "sensor", "vav", "meter", "space", "elec-meter", "air", "temp", "marker"];
+    let syms: Vec<Symbol> = names.iter().map(|n| Symbol::from(*n)).collect();
+    for s in &syms {
+        // warm every entry first (a *cold* query while a guard is held may need the shard exclusively)
+        let _ = ns.get().supertypes_of(s).len();
+        let _ = ns.get().inheritance(s).len();
+    }
+    let mut total = 0usize;
+    for x in &syms {
+        let a = ns.get().supertypes_of(x);
+        let i = ns.get().inheritance(x);
+        for y in &syms {
+            let b = ns.get().supertypes_of(y);
+            let j = ns.get().inheritance(y);
+            total += a.len() + b.len() + i.len() + j.len();
+        }
+    }
+    std::thread::scope(|sc| {
+        for t in 0..2 {
+            let (ns, syms) = (&ns, &syms);
+            sc.spawn(move || {
+                for k in 0..200 {
+                    let x = &syms[(k + t * 5) % syms.len()];
+                    let held = ns.get().supertypes_of(x);
+                    for y in syms.iter() {
+                        std::hint::black_box(ns.get().supertypes_of(y).len() + held.len());
+                    }
+                }
+            });
+        }
+    });
+    println!("guards ok {total}");
+    0
+}
+
+fn held_guards(ctx: &mut Ctx) {
+    ctx.rec.evals += 1;
+    ctx.rec.class("held-answer-guards:child-process");
+    ctx.rec.nontrivial(key_of("held-guards"));
+    let args = vec!["c14-guards".to_string()];
+    let r = run_probe(&args, None, Duration::from_secs(30), &[]);
+    match r.status {
+        ProbeStatus::Exit(0) => {}
+        ProbeStatus::Timeout => {
+            let again = run_probe(&args, None, Duration::from_secs(90), &[]);
+            if again.status == ProbeStatus::Timeout {
+                ctx.report("held-guards", Verdict::fail("C14:guards:deadlock", "asking for cached supertypes / inheritance while an earlier answer is still held does not return (30 s, then 90 s in a second process)"), json!({}));
+            } else {
+                ctx.inconclusive.push("held-guards probe timed out once and then completed".into());
+            }
+        }
+        other => ctx.report("held-guards", Verdict::fail("C14:guards:crash", format!("{other:?} {}", r.stderr_tail.lines().last().unwrap_or(""))), json!({})),
+    }
+}
+
 pub fn probe_schedule(args: &[String]) -> i32 {
     let Some(path) = args.first() else { return 2 };
     let Ok(text) = std::fs::read_to_string(path) else { return 2 };
@@ -640,12 +699,13 @@ pub fn probe_schedule(args: &[String]) -> i32 {
 }
 
 pub fn run(ctx: &mut Ctx) {
-    ctx.rule("histories (deterministic): generated query sequences on a freshly built namespace in four orders (each query twice in a row, reversed, rotated, forward-then-reverse); every answer must equal the stateless subtype-graph model while the namespace's other accessors (is, tags, has_subtype, conjuncts_defs, choices_for) are called in between, and association/relationship answers must equal those of a cold namespace (real defs, and generated worlds of relationship defs - transitive or not, `reciprocalOf` declared on one side, both or none - with tag defs, records pointing at each other and 3-24 has_relationship queries in a generated order; def_of_dict / entity_type of records with several unrelated entity markers repeated on cold and warm namespaces and from four threads must always name the same def); schedules: 2-16 threads started on a barrier, each issuing a generated query list against one cold namespace (generated taxonomy or the real defs) while a generated per-thread plan (nothing / yield / sleep 50us / spin) is applied at the caches' critical points through the sched_point hook; every answer of every thread must equal the model, no panic, completion within 30 s (a stuck schedule is re-run in a child process before it is called a deadlock); stress: 16 threads x 200 queries on cold real-defs namespaces; non-trivial: a schedule in which the hook observed two threads inside the same cache-miss window / a history of >= 3 queries; distinct by case");
+    ctx.rule("histories (deterministic): generated query sequences on a freshly built namespace in four orders (each query twice in a row, reversed, rotated, forward-then-reverse); every answer must equal the stateless subtype-graph model while the namespace's other accessors (is, tags, has_subtype, conjuncts_defs, choices_for) are called in between, and association/relationship answers must equal those of a cold namespace (real defs, and generated worlds of relationship defs - transitive or not, `reciprocalOf` declared on one side, both or none - with tag defs, records pointing at each other and 3-24 has_relationship queries in a generated order; def_of_dict / entity_type of records with several unrelated entity markers repeated on cold and warm namespaces and from four threads must always name the same def); schedules: 2-16 threads started on a barrier, each issuing a generated query list against one cold namespace (generated taxonomy or the real defs) while a generated per-thread plan (nothing / yield / sleep 50us / spin) is applied at the caches' critical points through the sched_point hook; every answer of every thread must equal the model, no panic, completion within 30 s (a stuck schedule is re-run in a child process before it is called a deadlock); stress: 16 threads x 200 queries on cold real-defs namespaces; answers (guards into the caches) kept alive while further cached queries are issued, alone and from two threads, in a child process with a time limit; non-trivial: a schedule in which the hook observed two threads inside the same cache-miss window / a history of >= 3 queries; distinct by case");
     ctx.assume("schedule exploration is biased sampling of OS interleavings, not enumeration; the history half is deterministic");
     let max_defs = ctx.tier.pick(16, 30) as usize;
     ctx.run_sub::<NsCase>("history", ctx.tier.pick(3_200, 64_000), &move || ns_case(max_defs, 30), &check_history);
     relationship_history(ctx);
     entity_type_stability(ctx);
+    held_guards(ctx);
     ctx.run_sub::<RelCase>("relationship-history", ctx.tier.pick(8_000, 160_000), &rel_case, &check_rel_history);
     ctx.run_sub::<SchedCase>("schedule", ctx.tier.pick(1_600, 48_000), &move || sched_case(max_defs), &check_schedule);
     ctx.extra.insert("sched_points_hit".into(), json!(POINTS.load(Ordering::Relaxed)));
@@ -682,6 +742,13 @@ pub fn replay(kind: &str, case: &J, rec: &mut Rec) -> Verdict {
     match kind {
         "history" => NsCase::from_json(case).map(|c| check_history(&c, rec)).unwrap_or_else(|e| Verdict::fail("infra:bad-replay", e)),
         "relationship-history" if case.get("rels").is_some() => RelCase::from_json(case).map(|c| check_rel_history(&c, rec)).unwrap_or_else(|e| Verdict::fail("infra:bad-replay", e)),
+        "held-guards" => {
+            let r = run_probe(&["c14-guards".to_string()], None, Duration::from_secs(90), &[]);
+            match r.status {
+                ProbeStatus::Exit(0) => Verdict::Pass,
+                other => Verdict::fail("C14:guards:deadlock", format!("{other:?}")),
+            }
+        }
         "entity-type" => {
             // re-run the whole (small, deterministic) stability check
             let mut c = Ctx::new("C14", crate::runner::Tier::Quick, 1);
